@@ -2871,11 +2871,6 @@ func (ts *TokenStore) handleCreateCommon(ctx context.Context, req *logical.Reque
 		if !isSudo {
 			return logical.ErrorResponse("root or sudo privileges required to directly generate a token in a child namespace"), logical.ErrInvalidRequest
 		}
-
-		policies := d.Get("policies").([]string)
-		if slices.Contains(policies, "root") {
-			return logical.ErrorResponse("root tokens may not be created from a parent namespace"), logical.ErrInvalidRequest
-		}
 	}
 
 	tokenType := logical.TokenTypeService
@@ -3038,6 +3033,15 @@ func (ts *TokenStore) handleCreateCommon(ctx context.Context, req *logical.Reque
 	// and shouldn't be added is kept because we want to do subset comparisons
 	// based on adding default when it's correct to do so.
 	if slices.Contains(te.Policies, "root") {
+		// Root tokens may not be created from a parent namespace. This looks at the
+		// resolved policies (sanitized and lower-cased, possibly inherited from the
+		// parent through a role) rather than at the raw request, so that neither
+		// "ROOT" nor an empty request against a role without an allow-list gets
+		// a parent namespace's root token past it.
+		if ns.ID != parent.NamespaceID {
+			return logical.ErrorResponse("root tokens may not be created from a parent namespace"), logical.ErrInvalidRequest
+		}
+
 		// Prevent attempts to create a root token without an actual root token as parent.
 		// This is to thwart privilege escalation by tokens having 'sudo' privileges.
 		if !slices.Contains(parent.Policies, "root") {
